@@ -94,6 +94,12 @@ v('c15-benign-helper', 'benign', ['C15', 'C08', 'C09'], T,
   ('def strip_bom(data, encoding):', 'def _canonical(encoding):\n    return codecs.lookup(encoding).name\n\n\ndef strip_bom(data, encoding):'),
   ('            encoding = codecs.lookup(encoding).name\n', '            encoding = _canonical(encoding)\n'))
 # ---- C14 / C13
+v('c17-benign-tell-absolute', 'benign', ['C17', 'C07', 'C09'], R,
+  ("                fp.seek(i + 1 - len(chunk), os.SEEK_CUR)", "                fp.seek(start + i + 1)"),
+  ("            chunk = fp.read(chunk_size)\n", "            start = fp.tell()\n            chunk = fp.read(chunk_size)\n"))
+v('c17-absolute-off-by-one', 'break', ['C17'], R,
+  ("                fp.seek(i + 1 - len(chunk), os.SEEK_CUR)", "                fp.seek(start + i)"),
+  ("            chunk = fp.read(chunk_size)\n", "            start = fp.tell()\n            chunk = fp.read(chunk_size)\n"))
 v('c14-no-init', 'break', ['C14'], U, ('    hunk_modified_i = 0\n    line_num = 0\n', '    hunk_modified_i = 0\n'))
 v('c14-marker-counts', 'break', ['C14'], U, ("            elif line.strip() != NO_NEWLINE_MARKER:\n                # We shouldn't have encountered this. This will be a corrupt\n                # diff. We'll process this at the end of this loop iteration.\n                found_garbage = True",
                                              "            elif line.strip() != NO_NEWLINE_MARKER:\n                found_garbage = True\n            else:\n                hunk_orig_i += 1"))
